@@ -1138,6 +1138,60 @@ impl Drop for VersionRef<'_> {
     }
 }
 
+////////////////////////////////////////// SnapshotCursor //////////////////////////////////////////
+
+/// A cursor over a snapshot of the tree.  A scan opens the ssts of its version lazily, and an sst
+/// stays in place only while some [VersionRef] names a version that contains it, so the cursor
+/// owns the reference it was created from for as long as it lives.
+pub(crate) struct SnapshotCursor<'a, C: Cursor> {
+    // NOTE:  Fields drop in declaration order.  The cursor must go before the reference does.
+    cursor: C,
+    _version: VersionRef<'a>,
+}
+
+impl<'a, C: Cursor> SnapshotCursor<'a, C> {
+    pub(crate) fn new(cursor: C, version: VersionRef<'a>) -> Self {
+        Self {
+            cursor,
+            _version: version,
+        }
+    }
+}
+
+impl<C: Cursor> Cursor for SnapshotCursor<'_, C> {
+    fn seek_to_first(&mut self) -> Result<(), SError> {
+        self.cursor.seek_to_first()
+    }
+
+    fn seek_to_last(&mut self) -> Result<(), SError> {
+        self.cursor.seek_to_last()
+    }
+
+    fn seek(&mut self, key: &[u8]) -> Result<(), SError> {
+        self.cursor.seek(key)
+    }
+
+    fn prev(&mut self) -> Result<(), SError> {
+        self.cursor.prev()
+    }
+
+    fn next(&mut self) -> Result<(), SError> {
+        self.cursor.next()
+    }
+
+    fn key(&self) -> Option<KeyRef<'_>> {
+        self.cursor.key()
+    }
+
+    fn value(&self) -> Option<&'_ [u8]> {
+        self.cursor.value()
+    }
+
+    fn key_value(&self) -> Option<sst::KeyValueRef<'_>> {
+        self.cursor.key_value()
+    }
+}
+
 ////////////////////////////////////////////// LsmTree /////////////////////////////////////////////
 
 pub struct LsmTree {
@@ -1720,7 +1774,7 @@ impl LsmTree {
         let version_scan = version.range_scan(start_bound, end_bound, u64::MAX)?;
         let cursor = PruningCursor::new(version_scan, u64::MAX)?;
         let cursor = BoundsCursor::new(cursor, start_bound, end_bound)?;
-        Ok(cursor)
+        Ok(SnapshotCursor::new(cursor, version))
     }
 }
 
